@@ -659,6 +659,14 @@ impl<'a> Searcher<'a> {
             }
         }
 
+        #[cfg(feature = "git")]
+        let repository_dir = match apply_gitignore && self.current_follow_symlinks {
+            true => git_repository
+                .and_then(|repository| repository.workdir())
+                .and_then(|work_tree| fs::canonicalize(work_tree).ok()),
+            false => None,
+        };
+
         // Read the directory and process each entry
         match fs::read_dir(dir) {
             Ok(entry_list) => {
@@ -677,11 +685,18 @@ impl<'a> Searcher<'a> {
                                 let canonical_path = canonical_dir.join(entry.file_name());
 
                                 // Check the path against the filters
+                                // (a followed link may have led out of the repository: its rules
+                                // say nothing about what lies outside its work tree)
                                 #[cfg(feature = "git")]
                                 let pass_gitignore = !apply_gitignore
-                                    || !(git_repository.is_some() &&
-                                    git_repository.unwrap().is_path_ignored(&canonical_path)
-                                        .unwrap_or(false));
+                                    || !(git_repository.is_some()
+                                        && repository_dir
+                                            .as_ref()
+                                            .is_none_or(|work_tree| canonical_path.starts_with(work_tree))
+                                        && git_repository
+                                            .unwrap()
+                                            .is_path_ignored(&canonical_path)
+                                            .unwrap_or(false));
                                 #[cfg(not(feature = "git"))]
                                 let pass_gitignore = true;
 
@@ -771,13 +786,14 @@ impl<'a> Searcher<'a> {
                                                 #[cfg(feature = "git")]
                                                 let repo;
                                                 #[cfg(feature = "git")]
-                                                let git_repository = match git_repository {
-                                                    Some(repo) => Some(repo),
-                                                    None if apply_gitignore => {
+                                                // the rules of the nearest repository count: a directory that
+                                                // is a repository itself, else the one of its parent
+                                                let git_repository = match apply_gitignore {
+                                                    true => {
                                                         repo = Repository::open(&path).ok();
-                                                        repo.as_ref()
-                                                    },
-                                                    _ => None,
+                                                        repo.as_ref().or(git_repository)
+                                                    }
+                                                    false => None,
                                                 };
                                                 let result = self.visit_dir(
                                                     &path,
@@ -831,14 +847,14 @@ impl<'a> Searcher<'a> {
                 #[cfg(feature = "git")]
                 let repo;
                 #[cfg(feature = "git")]
-                let git_repository = match git_repository {
-                    Some(repo) => Some(repo),
-                    None if apply_gitignore => {
-                        // a queued directory may lie deep inside a repository found below the root
+                let git_repository = match apply_gitignore {
+                    // the rules of the nearest repository count (a queued directory may lie deep
+                    // inside a repository found below the root, or inside one nested in the root's)
+                    true => {
                         repo = Repository::discover(&path).ok();
-                        repo.as_ref()
-                    },
-                    _ => None,
+                        repo.as_ref().or(git_repository)
+                    }
+                    false => None,
                 };
                 let result = self.visit_dir(
                     &path,
